@@ -2,7 +2,7 @@
 (* Trace validation for package mice (C14, C15, C10) with real SHA-256 (JDK). *)
 (*  kind "enc": Encode(payload, rs) -> stream, digest header text             *)
 (*  kind "dec": NewDecoder(stream, digest, max) and the Read calls up to the  *)
-(*              first failure / clean end.                                    *)
+(*              first failure / clean end (plus up to 3 reads after a failure) *)
 EXTENDS Mice, TLC, Json, IOUtils
 Trace == ndJsonDeserialize(IOEnv.VERIF_TRACE)
 VARIABLE l
@@ -45,7 +45,9 @@ Authenticated(ev) ==
   ev.honest =>
     LET d == Delivered(ev.reads, 1) IN
     /\ IsPrefixB(d, ev.orig)
-    /\ (\E i \in 1..Len(ev.reads) : ev.reads[i].res = "eof") => d = ev.orig
+    \* a clean end-of-stream (one not preceded by a reported error) comes only after the whole payload;
+    \* reads made after an error are still covered by the prefix clause above: nothing unauthenticated is ever handed out
+    /\ (\E i \in 1..Len(ev.reads) : ev.reads[i].res = "eof" /\ \A j \in 1..(i - 1) : ev.reads[j].res # "err") => d = ev.orig
 
 Verdict(ev) == IF ev.kind = "enc" THEN (IF EncOk(ev) THEN "ok" ELSE "encode")
                ELSE IF ~Authenticated(ev) THEN "unauthenticated"
